@@ -5,7 +5,7 @@
 
     Byte-faithful: [slice_chk] is the indexing form ([file[a..b]], [Bytes::slice]: [Panic] out of range or
     [a > b]), [unwrap] of [None] is [Panic].  [v0 = true] is [extract_templates] as it was (the last
-    template is [file.slice(start..len - trim)]); [v0 = false] the repaired code (commit fe1115a).
+    template is [file.slice(start..len - trim)]); [v0 = false] the repaired code (commit 176c67e).
     Definitions only. *)
 From KV Require Import Bytes RustInt.
 From KV Require PathSan.
